@@ -13,11 +13,19 @@ pub struct GenerateResult {
 fn generate_hex_from_segment(segment: &[u8]) -> Result<String, Error> {
     let mut records = vec![];
     if segment.len() > 0 {
-        records.push(Record::ExtendedSegmentAddress(0x0));
-
         for (i, chunk) in segment.chunks(16).enumerate() {
+            let address = i * 16;
+            // every 64 KiB block needs own base address record
+            if address % 0x10000 == 0 {
+                let block = address / 0x10000;
+                if block < 16 {
+                    records.push(Record::ExtendedSegmentAddress((block as u16) << 12));
+                } else {
+                    records.push(Record::ExtendedLinearAddress(block as u16));
+                }
+            }
             records.push(Record::Data {
-                offset: i as u16 * 16,
+                offset: (address % 0x10000) as u16,
                 value: chunk.to_vec(),
             });
         }
